@@ -21,11 +21,23 @@ fn deltas_for(size: usize) -> Vec<usize> {
 }
 
 /// One transform case for engine `eng` against Naive.
-fn check_transform(eng: &str, dir: Dir, n: u32, trunc: usize, pos: usize, delta: usize, len64: usize, seed: u64) -> Result<(), (String, String)> {
+fn check_transform(eng: &str, dir: Dir, n: u32, trunc: usize, pos: usize, delta: usize, len64: usize, seed: u64, shape: &str) -> Result<(), (String, String)> {
     let size = 1usize << n;
     let count = pos + size + GUARD;
     let mut rng = Rng::new(seed ^ ((n as u64) << 40) ^ ((trunc as u64) << 20) ^ delta as u64 ^ ((len64 as u64) << 60));
     let mut input = Buf::random(count, len64, &mut rng);
+    // input shapes besides dense: "unit<j>" = every shard of the range but j is zero, "same" = all shards of
+    // the range identical (short cuts that depend on the data)
+    if let Some(j) = shape.strip_prefix("unit") {
+        let j: usize = j.parse().expect("unit index");
+        input.zero_shards(pos, pos + j);
+        input.zero_shards(pos + j + 1, pos + size);
+    } else if shape == "same" {
+        for j in 1..size {
+            let first = input.shard(pos).to_vec();
+            input.shard_mut(pos + j).copy_from_slice(&first);
+        }
+    }
     if dir == Dir::Ifft {
         input.zero_shards(pos + trunc, pos + size);
     }
@@ -152,7 +164,7 @@ fn run_case(kv: &Kv) -> Result<u64, (String, String)> {
     match kv.str("prim") {
         "fft" | "ifft" => {
             let dir = if kv.str("prim") == "fft" { Dir::Fft } else { Dir::Ifft };
-            check_transform(eng, dir, kv.usize("n") as u32, kv.usize("trunc"), kv.usize("pos"), kv.usize("delta"), kv.usize("len64"), kv.u64("seed")).map(|_| 1)
+            check_transform(eng, dir, kv.usize("n") as u32, kv.usize("trunc"), kv.usize("pos"), kv.usize("delta"), kv.usize("len64"), kv.u64("seed"), kv.opt("shape").unwrap_or("dense")).map(|_| 1)
         }
         "mul" => check_mul(eng, kv.usize("log_m") as u16, kv.usize("len64"), kv.u64("seed")).map(|_| 1),
         "eval_poly" => check_eval_poly(eng, &parse_ranges(kv.str("marked")), kv.usize("trunc")).map(|_| 1),
@@ -198,6 +210,24 @@ pub fn run(ctx: &Ctx, rep: &mut Report) {
         }
     }
     rep.bound("transform", J::s(format!("n <= {nmax}: every truncated_size; full (pos,delta,len) product for n <= 7, a fixed 1/6 (n=8,9) or 1/24 (n>=10) rotation of it above")));
+    // sparse and repetitive inputs (small sizes, every engine)
+    for &eng in &engines {
+        for n in 1..=5u32 {
+            let size = 1usize << n;
+            let mut shapes: Vec<String> = if size <= 8 { (0..size).map(|j| format!("unit{j}")).collect() } else { [0, 1, size / 2 - 1, size / 2, size - 1].iter().map(|j| format!("unit{j}")).collect() };
+            shapes.push("same".into());
+            for dir in ["fft", "ifft"] {
+                for shape in &shapes {
+                    for trunc in [size, size / 2 + 1] {
+                        for (delta, len64) in [(0usize, 1usize), (size, 2)] {
+                            cases.push(Kv::new().with("prim", dir).with("eng", eng).with("n", n).with("trunc", trunc).with("pos", 1).with("delta", delta).with("len64", len64).with("seed", seed).with("shape", shape.as_str()));
+                        }
+                    }
+                }
+            }
+        }
+    }
+    rep.bound("transform_input_shapes", J::s("n = 1..5: inputs with all shards but one zero (every position for size <= 8) and with all shards identical, truncated sizes {size, size/2+1}"));
     // every size class up to the whole field, at a few truncated sizes and skew offsets (both tiers)
     for &eng in &engines {
         for n in (nmax + 1)..=16u32 {
